@@ -85,6 +85,15 @@ func NewExec(prog *Program, fn *ssa.Function) *Exec {
 		notes: map[string]bool{}, structCodecs: map[string]structCodec{}, globalObj: map[*ssa.Global]int{}}
 	if prog.spec != nil {
 		x.sym.preset = prog.spec.lits
+		// the literals named by the spec are always part of the distinctness fact
+		var pl []string
+		for s := range prog.spec.lits {
+			pl = append(pl, s)
+		}
+		sort.Strings(pl)
+		for _, s := range pl {
+			x.sym.StrLit(s)
+		}
 		x.sym.external = map[string]bool{}
 		for n := range prog.spec.sigs {
 			x.sym.external[n] = true
